@@ -27,12 +27,15 @@ Par(tol, adj, loose, final) ==
 AlphaQuick == { B(3), B(2), G(1, 2, 0, 1), P(-10000), DC(1, 1, 0, 0, 0), KX(1) }
 AlphaFull  == AlphaQuick \cup { P(50), DC(1, 1, 1, 1, 1), G(1, -1, 0, 0), KF(-2) }
 AlphaNeg   == AlphaQuick \cup { KF(-2), P(50) }     \* negative widths: non-monotone lists exist
+AlphaRun   == { B(3), B(2), DC(0, 0, 0, 0, 2), KX(2), G(0, 0, 0, 0) }   \* replacement runs with an explicit kern
 
 WidthsQuick == { <<7>>, <<5, 7>>, <<7, 5, 4>> }
 WidthsFull  == WidthsQuick \cup { <<4, 9>> }
 
 ParsQuick == { Par(10000, 10000, 0, FALSE), Par(200, 500, 0, FALSE), Par(10000, 10000, 1, FALSE) }
-ParsFull  == ParsQuick \cup { Par(10000, 0, -1, TRUE), Par(99, -3000, 0, FALSE), Par(10000, 10000, -1, FALSE) }
+\* line_penalty 0 and adj_demerits 0: many sequences tie at the fewest demerits (looseness ties)
+ParTies   == [Par(10000, 0, -1, FALSE) EXCEPT !.lp = 0, !.hp = 0, !.ehp = 0]
+ParsFull  == ParsQuick \cup { Par(10000, 0, -1, TRUE), Par(99, -3000, 0, FALSE), Par(10000, 10000, -1, FALSE), ParTies }
 
 ParsCap   == { Par(10001, 10000, 0, FALSE) }
 \* single-point models for the negative controls
@@ -47,4 +50,6 @@ NoDevs   == {}
 OnlyKern == {DevKernSign}
 OnlyKeep == {DevNoDiscard}
 OnlyCap  == {DevNoCap}
+OnlyScan == {DevScanRun}
+W8 == { <<8>> }
 =============================================================================
